@@ -1,2 +1,327 @@
-import DuneVerif.Common.Proto
-def main : IO Unit := DV.runDriver fun _ => "bad-op"
+import DuneVerif.Model.C07
+/-! line-protocol driver for C07 (formats: see the header of harness/mpi_c07.cc) -/
+open DV DV.C07
+
+def kvGet (toks : List String) (key : String) : Option String :=
+  let k := (key ++ "=").toList
+  toks.findSome? fun t =>
+    let cs := t.toList
+    if cs.take k.length == k then some (String.ofList (cs.drop k.length)) else none
+
+def kvNat (toks : List String) (key : String) : Option Nat := (kvGet toks key).bind String.toNat?
+def kvInts (toks : List String) (key : String) : Option (List Int) := (kvGet toks key).bind parseIntList?
+def kvNats (toks : List String) (key : String) : Option (List Nat) := (kvGet toks key).bind parseNatList?
+
+/-- tokens after the first ":" token, split at "|" tokens -/
+def afterColon (toks : List String) : List String := (toks.dropWhile (· ≠ ":")).drop 1
+
+def splitBars : List String → List (List String)
+  | [] => [[]]
+  | t :: ts =>
+    match splitBars ts with
+    | [] => [[t]]
+    | g :: gs => if t = "|" then [] :: g :: gs else (t :: g) :: gs
+
+def showCells (l : List Int) : String := showList l
+
+def ranksLine (outs : List String) : String :=
+  " ".intercalate (outs.zipIdx.map fun p => "r" ++ toString p.2 ++ "{" ++ p.1 ++ "}")
+
+def repeatFill (fill : List Int) (count : Nat) : List Int := (List.replicate count fill).flatten
+
+def splitDots (s : String) : List String := s.splitOn "."
+
+def isNamed (fn : String) : Bool := fn == "sum" || fn == "prod" || fn == "min" || fn == "max"
+def isIntrinsic (ty : String) : Bool := ty == "int" || ty == "long" || ty == "double" || ty == "complex"
+def isTrueScalar (ty : String) : Bool := ty != "fv3"
+
+structure CollCase where
+  comm : String
+  base : String
+  fn : String
+  form : String
+  ty : String
+  tm : TMap
+  root : Nat
+  n : Nat
+  pad : Nat
+  m : Nat
+  fill : List Int
+  lens : List Nat
+  displs : List Nat
+  ins : List (List Int)
+
+def outElems (k : CollCase) (np rank : Nat) (lens : List Nat) : Nat :=
+  match k.base with
+  | "gather" | "allgather" => k.n * np + k.pad
+  | "gatherv" | "allgatherv" => k.m
+  | "scatter" => k.n + k.pad
+  | "scatterv" => lens.getD rank 0 + k.pad
+  | "red" => k.n + k.pad
+  | _ => 0
+
+inductive Out
+  | cells (c : List Int)
+  | unsupported
+
+def Out.show : Out → String
+  | .cells c => showCells c
+  | .unsupported => "ERR:unsupported"
+
+/-- the checks after which the harness answers ERR:unsupported (same on every rank of the communicator) -/
+def unsupported (k : CollCase) (seq : Bool) (inSize outSize : Nat) : Bool :=
+  let e := k.tm.extent
+  let inN := inSize / e
+  let outN := outSize / e
+  if k.ty == "char" then true else
+  match k.base, k.form with
+  | "red", form =>
+    let vec := isIntrinsic k.ty && isNamed k.fn
+    if (redOp k.ty k.fn).isNone then true
+    else if form == "sc" then !(k.n == 1 && isNamed k.fn)
+    else if form == "ar" then !(isNamed k.fn)
+    else if form == "ip" || form == "io" then false
+    else if form == "rv" || form == "iio" || form == "iip" then
+      (!vec && !isTrueScalar k.ty) || (!vec && k.n != 1) || inN != k.n || outN != k.n || (form == "rv" && seq)
+    else true
+  | "barrier", form => !(form == "ptr" || form == "i")
+  | "bcast", "ptr" => false
+  | "bcast", "i" => outN != k.n
+  | "bcast", "isc" => k.n != 1 || outN != 1
+  | "gather", "ptr" | "allgather", "ptr" | "scatter", "ptr" => false
+  | "gather", "i" | "allgather", "i" => seq
+  | "gather", "isc" | "allgather", "isc" => !isTrueScalar k.ty || k.n != 1
+  | "scatter", "i" => seq || outN != k.n
+  | "scatter", "isc" => !isTrueScalar k.ty || k.n != 1 || outN != 1 || (seq && inN == 0)
+  | "gatherv", "ptr" | "allgatherv", "ptr" | "scatterv", "ptr" => false
+  | _, _ => true
+
+/-- all ranks' results on a communicator whose ranks hold `ins` / `outs` -/
+def specAll (k : CollCase) (root : Nat) (ins outs : List (List Int)) (lens displs : List Nat) : List (List Int) :=
+  match k.base with
+  | "bcast" => Spec.bcast k.tm k.n root outs
+  | "gather" => Spec.gather k.tm k.n root ins outs
+  | "gatherv" => Spec.gatherv k.tm root ins lens displs outs
+  | "scatter" => Spec.scatter k.tm k.n root ins outs
+  | "scatterv" => Spec.scatterv k.tm root ins lens displs outs
+  | "allgather" => Spec.allgather k.tm k.n ins outs
+  | "allgatherv" => Spec.allgatherv k.tm ins lens displs outs
+  | "red" =>
+    match redOp k.ty k.fn with
+    | some op => Spec.allreduce k.tm.extent k.n op ins outs
+    | none => outs
+  | _ => outs
+
+/-- the sequential stand-in on one rank -/
+def seqOne (k : CollCase) (inp out : List Int) (len displ : Nat) : List Int :=
+  let e := k.tm.extent
+  match k.base, k.form with
+  | "red", "sc" => Seq.assignElem e (Seq.reduceScalar inp) 0 out 0
+  | "red", "ar" | "red", "ip" => Seq.copyLoop e (Seq.reduceInplace inp k.n) 0 out 0 k.n
+  | "red", "io" => Seq.allreduceInOut e inp out k.n
+  | "red", "iio" => Seq.iallreduceInOut inp out
+  | "red", "iip" => Seq.iallreduceInplace inp
+  | "bcast", "ptr" => Seq.broadcast out k.n 0
+  | "bcast", _ => Seq.ibroadcast out 0
+  | "gather", "ptr" => Seq.gather e inp out k.n 0
+  | "gather", _ => Seq.igather e inp out 0
+  | "gatherv", _ => Seq.gatherv e inp len out len displ 0
+  | "scatter", "ptr" => Seq.scatter e inp out k.n 0
+  | "scatter", _ => Seq.iscatter e inp out 0
+  | "scatterv", _ => Seq.scatterv e inp len displ out len 0
+  | "allgather", "ptr" => Seq.allgather e inp k.n out
+  | "allgather", _ => Seq.iallgather e inp out
+  | "allgatherv", _ => Seq.allgatherv e inp len out len displ
+  | _, _ => out
+
+def runColl (k : CollCase) : String :=
+  let P := k.ins.length
+  let e := k.tm.extent
+  if e = 0 || k.lens.length ≠ P || k.displs.length ≠ P || k.fill.length ≠ e
+      || k.ins.any (fun i => i.length % e ≠ 0) then ranksLine (List.replicate P "ERR:malformed")
+  else if k.comm == "world" then
+    let outs := (List.range P).map fun r =>
+      if k.base == "bcast" then k.ins.getD r [] else repeatFill k.fill (outElems k P r k.lens)
+    let uns := (List.range P).map fun r => unsupported k false (k.ins.getD r []).length (outs.getD r []).length
+    if uns.any id then ranksLine (List.replicate P "ERR:unsupported")
+    else ranksLine ((specAll k k.root k.ins outs k.lens k.displs).map showCells)
+  else if k.comm == "self" || k.comm == "seq" then
+    let seq := k.comm == "seq"
+    ranksLine ((List.range P).map fun r =>
+      let inp := k.ins.getD r []
+      let len := k.lens.getD r 0
+      let displ := k.displs.getD r 0
+      let out := if k.base == "bcast" then inp else repeatFill k.fill (outElems k 1 0 [len])
+      if unsupported k seq inp.length out.length then "ERR:unsupported"
+      else if seq then showCells (seqOne k inp out len displ)
+      else showCells ((specAll k 0 [inp] [out] [len] [displ]).getD 0 []))
+  else "bad-op"
+
+def handleColl (toks : List String) : String :=
+  match toks with
+  | _ :: comm :: op :: ty :: _ =>
+    match tyMap ty, kvNat toks "root", kvNat toks "n", kvNat toks "pad", kvNat toks "m", kvInts toks "fill",
+          kvNats toks "lens", kvNats toks "displs" with
+    | some tm, some root, some n, some pad, some m, some fill, some lens, some displs =>
+      let parts := splitDots op
+      let base := parts.headD ""
+      let form := parts.getLastD ""
+      let fn := if parts.length = 3 then parts.getD 1 "" else ""
+      match (splitBars (afterColon toks)).mapM (fun g => match g with | [t] => parseIntList? t | _ => none) with
+      | some ins => runColl { comm, base, fn, form, ty, tm, root, n, pad, m, fill, lens, displs, ins }
+      | none => "bad-op"
+    | _, _, _, _, _, _, _, _ => "bad-op"
+  | _ => "bad-op"
+
+/-! ### point-to-point -/
+
+def splitSlash (s : String) : List String := s.splitOn "/"
+
+def handleP2p (toks : List String) : String :=
+  match toks with
+  | _ :: mode :: cont :: ty :: _ =>
+    match tyMap ty, kvNat toks "shift" with
+    | some tm, some shift =>
+      let segs := (splitBars (afterColon toks)).mapM fun g =>
+        match g with
+        | [t] => match splitSlash t with
+          | [a, b] => match parseIntList? a, parseIntList? b with
+            | some s, some d => some (s, d)
+            | _, _ => none
+          | _ => none
+        | _ => none
+      match segs with
+      | none => "bad-op"
+      | some sd =>
+        let P := sd.length
+        let e := tm.extent
+        let rr := mode == "isend_rrecv" || mode == "chain_rrecv"
+        let chain := mode == "chain_recv" || mode == "chain_rrecv"
+        let knownMode := mode == "isend_recv" || mode == "irecv_send" || rr || chain
+        let uns := !knownMode || (cont == "sc" && (ty == "char" || rr)) || (cont == "vec" && ty == "char")
+          || (cont == "str" && ty != "char") || !(cont == "sc" || cont == "vec" || cont == "str")
+          || (chain && shift % P == 0)
+        if uns then ranksLine (List.replicate P "ERR:unsupported")
+        else if sd.any (fun p => p.1.length % e ≠ 0 || p.2.length % e ≠ 0) then ranksLine (List.replicate P "ERR:malformed")
+        else
+          let srcs := sd.map fun p => (p.1, p.1.length / e)
+          let dsts := (List.range P).map fun r =>
+            let d := (sd.getD r ([], [])).2
+            let incoming := (srcs.getD ((r + P - shift % P) % P) ([], 0)).2
+            if rr then resizeCells e (List.replicate e 0) d incoming else d
+          ranksLine ((Spec.ringRecv tm shift srcs dsts).map showCells)
+    | _, _ => "bad-op"
+  | _ => "bad-op"
+
+/-! ### MPIPack -/
+
+abbrev It := Item Int Int
+abbrev De := Dest Int Int
+
+def parseItem (t : String) : Option (Option (It × De)) :=   -- none = bad-op, some none = unsupported
+  match splitSlash t with
+  | [kind, ty, a, b] =>
+    match tyMap ty, parseIntList? a, parseIntList? b with
+    | some tm, some src, some dst =>
+      let e := tm.extent
+      if src.length % e ≠ 0 || dst.length % e ≠ 0 then none else
+      match kind with
+      | "s" => if src.length = e && dst.length = e then some (some (.stat tm 1 src, .stat tm 1 dst)) else none
+      | "a" => if src.length = 3 * e && dst.length = 3 * e then some (some (.stat tm 3 src, .stat tm 3 dst)) else none
+      | "v" => if ty == "char" then some none
+               else some (some (.dyn tm (src.length / e) src, .dyn tm (List.replicate e 0) dst))
+      | "t" => if ty != "char" then some none
+               else some (some (.dyn tm (src.length / e) src, .dyn tm (List.replicate e 0) dst))
+      | _ => some none
+    | _, _, _ => none
+  | _ => none
+
+def destCells : De → String
+  | .stat _ _ c => showCells c
+  | .dyn _ _ c => showCells c
+  | .raw b => showCells b
+
+def pk (st : PState Int) (its : List It) : PState Int := packAll idCodec Int.ofNat id 0 st its
+def upk (st : PState Int) (ds : List De) : List De × PState Int := unpackAll idCodec Int.toNat 0 st ds
+
+def intItem (v : Int) : It := .stat (TMap.basic 1) 1 [v]
+def intDest (v : Int) : De := .stat (TMap.basic 1) 1 [v]
+
+def showRead (rs : List De) : String :=
+  match rs with
+  | [] => "[]"
+  | f :: rest => " ".intercalate (destCells f :: rest.map destCells)
+
+def packRank (mode : String) (P shift r : Nat) (items : List It) (dests : List De) : String :=
+  let sender : Nat :=
+    if mode == "send" || mode == "irecv" then (r + P - shift % P) % P
+    else if mode == "bcast" then shift % P else r
+  let written := pk ⟨[], 0⟩ (intItem sender :: items)
+  let ds := intDest (-2147483648) :: dests
+  if mode == "local" || mode == "send" || mode == "irecv" || mode == "bcast" then
+    showRead (upk ⟨written.buf, 0⟩ ds).1
+  else if mode == "tell" then
+    -- positions before each item, then every item is read at its own position
+    let step := fun (acc : PState Int × List Nat) (it : It) => (pk acc.1 [it], acc.2 ++ [acc.1.pos])
+    let poss := ((intItem sender :: items).foldl step (⟨[], 0⟩, [])).2
+    showRead ((ds.zip poss).map fun p => ((upk ⟨written.buf, p.2⟩ [p.1]).1.headD p.1))
+  else if mode == "nest" then
+    let outer := pk ⟨[], 0⟩ [intItem 111, .raw written.buf, intItem 222]
+    match (upk ⟨outer.buf, 0⟩ [intDest 0, .raw [], intDest 0]).1 with
+    | [_, .raw inner, _] => showRead (upk ⟨inner, 0⟩ ds).1
+    | _ => "bad-op"
+  else "ERR:unsupported"
+
+def handlePack (toks : List String) : String :=
+  match toks with
+  | _ :: mode :: _ =>
+    match kvNat toks "np", kvNat toks "shift" with
+    | some P, some shift =>
+      match (afterColon toks).mapM parseItem with
+      | none => "bad-op"
+      | some parsed =>
+        match parsed.mapM id with
+        | none => ranksLine (List.replicate P "ERR:unsupported")
+        | some pairs =>
+          ranksLine ((List.range P).map fun r => packRank mode P shift r (pairs.map (·.1)) (pairs.map (·.2)))
+    | _, _ => "bad-op"
+  | _ => "bad-op"
+
+/-! ### datatypes -/
+
+def flatBlocks (bs : List (Nat × Nat)) : List Nat := bs.flatMap fun b => [b.1, b.2]
+
+def tmapOf (ty : String) (lay : List Nat) : Option TMap :=
+  open TMap Types in
+  match ty, lay with
+  | "int", [s] | "long", [s] | "double", [s] | "char", [s] | "complex", [s] => some (basic s)
+  | "fv3", [d, n, w] => some (fieldVector d n (basic w))
+  | "big96", [d, n, w] => some (bigUnsigned d n (basic w))
+  | "pair", [o1, s1, o2, s2, size] => some (pair o1 (basic s1) o2 (basic s2) size)
+  | "pli", [offA, size] => some (localIndex offA (basic 1) size)
+  | "ip", [offG, szG, offL, offA, szL, size] => some (indexPair offG (basic szG) offL (localIndex offA (basic 1) szL) size)
+  | _, _ => none
+
+def handleTmap (toks : List String) : String :=
+  match toks with
+  | _ :: ty :: _ =>
+    match kvNat toks "np", kvNats toks "lay" with
+    | some P, some lay =>
+      match tmapOf ty lay with
+      | some tm =>
+        ranksLine (List.replicate P
+          ("blocks=" ++ showList (flatBlocks (TMap.mergeBlocks (tm.blocks.mergeSort (fun a b => decide (a.1 ≤ b.1))))) ++ " extent=" ++ toString tm.extent ++ " lb=0"))
+      | none => "bad-op"
+    | _, _ => "bad-op"
+  | _ => "bad-op"
+
+def handle (line : String) : String :=
+  let toks := tokens line
+  match toks.head? with
+  | some "coll" => handleColl toks
+  | some "p2p" => handleP2p toks
+  | some "pack" => handlePack toks
+  | some "tmap" => handleTmap toks
+  | _ => "bad-op"
+
+def main : IO Unit := runDriver handle
